@@ -172,6 +172,8 @@ FEATURES = {
     "overloads": "from typing import overload\n@overload\ndef ov(a: int) -> int: ...\n@overload\ndef ov(a: str) -> str: ...\ndef ov(a): return a\n",
     "dataclass": 'import dataclasses\n@dataclasses.dataclass\nclass DC:\n    """DC doc."""\n    x: int\n    y: str = "s"\n    z: list = dataclasses.field(default_factory=list)\n',
     "lambda": "lam = lambda a, /, b=1, *c, d, **e: a\n",
+    # a class member spelled like the class's own base / decorator: the header names belong to the enclosing scope
+    "shadow": "def deco(c):\n    return c\nclass SBase:\n    x = 1\n@deco\nclass Child(SBase):\n    SBase = None\n    deco = 2\n    def m(self, p: SBase = SBase) -> SBase: ...\n",
     "inherit": "import abc\nclass A(abc.ABC):\n    @abc.abstractmethod\n    def am(self): ...\n    x = 1\nclass B(A):\n    y = 2\n",
 }
 EXECUTABLE = list(FEATURES)
